@@ -156,24 +156,38 @@ struct SpinMonitor {
 	void fail(const std::string &k, const std::string &w) { if(!bad) { bad = true; why = k + "|" + w; } }
 };
 
+// `first_ticket`: the ticket lock's counters start there (verification-only constructor), so that scenarios can run across the
+// 2^32 wrap-around of the counters; is_locked() is not consulted in those scenarios (the property does not speak about it).
+template<typename L> static L *make_lock(uint32_t first_ticket) { if constexpr (LockName<L>::ticket) return new L(first_ticket); else { (void)first_ticket; return new L(); } }
+
 template<typename L>
-static void run_spin_scenario(const char *mode, long long idx, int nthreads, int pairs, sched::Strategy &strat, uint64_t step_limit, bool with_is_locked) {
+static void run_spin_scenario(const char *mode, long long idx, int nthreads, int pairs, sched::Strategy &strat, uint64_t step_limit, bool with_is_locked, uint32_t first_ticket = 0) {
 	begin_case(mode, idx);
-	L *lock = new L();
+	if(first_ticket) with_is_locked = false;
+	L *lock = make_lock<L>(first_ticket);
 	SpinMonitor mon;
 	sched::World w; w.step_limit = step_limit; w.keep_trace = true;
 	w.on_point = [&](int me, const char *site, const void *obj, unsigned long v) {
 		(void)me;
 		if(obj != lock) return;
 		if(!strcmp(site, "ticket.lock.took_ticket")) mon.took.push_back(v);
-		if(!strcmp(site, "ticket.lock.acquired")) mon.acquired.push_back(v);
+		if(!strcmp(site, "ticket.lock.acquired")) {
+			// grants must come in ticket order: first, first+1, ... (mod 2^32); checked online, because what a lock does after
+			// granting out of order (a waiter that is never served, an unbounded back-off) need not terminate
+			if((uint32_t)v != (uint32_t)(first_ticket + mon.acquired.size())) mon.fail("ticket-order", strf("ticket 0x%lx was granted the lock although ticket 0x%x is next", v, (uint32_t)(first_ticket + mon.acquired.size())));
+			mon.acquired.push_back(v);
+		}
 	};
 	std::vector<std::function<void()>> bodies;
 	for(int t = 0; t < nthreads; t++) bodies.push_back([&, t] {
 		for(int p = 0; p < pairs; p++) {
 			lock->lock();
+			if(mon.bad) w.abort_run(sched::Outcome::Panic, "ticket order violated");
 			// critical section (plain state; a second worker inside is a mutual-exclusion violation)
-			if(mon.in_cs != 0) mon.fail("mutual-exclusion", strf("worker %d entered the critical section while another worker is inside", t));
+			if(mon.in_cs != 0) {
+				mon.fail("mutual-exclusion", strf("worker %d entered the critical section while another worker is inside", t));
+				w.abort_run(sched::Outcome::Panic, "mutual exclusion violated"); // stop here: what a broken lock does afterwards (lost hand-over, unbounded back-off) is aftermath
+			}
 			mon.in_cs++; mon.entries++;
 			if(with_is_locked && !lock->is_locked()) mon.fail("is_locked", "is_locked() is false while the lock is held");
 			sched::yield_point("cs.inside", t);
@@ -199,7 +213,11 @@ static void run_spin_scenario(const char *mode, long long idx, int nthreads, int
 		if(LockName<L>::ticket) {
 			// the lock must be granted in ticket order
 			if(mon.took.size() != mon.acquired.size()) report("ticket-order", "number of tickets taken and grants differ");
-			else { std::vector<unsigned long> sorted = mon.took; std::sort(sorted.begin(), sorted.end()); if(mon.acquired != sorted) report("ticket-order", "the ticket lock was not granted in ticket order"); }
+			else { // order = distance from the first ticket modulo 2^32
+				auto dist = [&](unsigned long v) { return (uint32_t)((uint32_t)v - first_ticket); };
+				std::vector<unsigned long> sorted = mon.took; std::sort(sorted.begin(), sorted.end(), [&](unsigned long a, unsigned long b) { return dist(a) < dist(b); });
+				if(mon.acquired != sorted) report("ticket-order", "the ticket lock was not granted in ticket order");
+			}
 		}
 		if(with_is_locked && lock->is_locked()) report("is_locked", "is_locked() is true after every holder released the lock");
 	}
@@ -207,7 +225,7 @@ static void run_spin_scenario(const char *mode, long long idx, int nthreads, int
 }
 
 template<typename L>
-static void spin_dfs(const char *tag, int nthreads, int pairs, int bound, uint64_t max_runs) {
+static void spin_dfs(const char *tag, int nthreads, int pairs, int bound, uint64_t max_runs, uint32_t first_ticket = 0) {
 	std::string mode = std::string("dfs:") + LockName<L>::name + ":" + tag;
 	static unsigned dfs_mode_index = 0;
 	if(!want_mode(mode.c_str()) || (opt.mode.empty() && (dfs_mode_index++ % opt.nshards) != opt.shard)) return;
@@ -215,12 +233,12 @@ static void spin_dfs(const char *tag, int nthreads, int pairs, int bound, uint64
 	long long i = 0;
 	bool complete = false;
 	do {
-		run_spin_scenario<L>(mode.c_str(), i, nthreads, pairs, dfs, 5000, true);
+		run_spin_scenario<L>(mode.c_str(), i, nthreads, pairs, dfs, 5000, true, first_ticket);
 		i++;
 		if(!rec.violations.empty()) break;
 		if(!dfs.advance()) { complete = true; break; }
 	} while((uint64_t)i < max_runs);
-	rec.notes[mode] = strf("%s: %d threads x %d lock/unlock pairs, preemption bound %d: %lld schedules, %s", LockName<L>::name, nthreads, pairs, bound, i, complete ? "space exhausted" : "CUT SHORT");
+	rec.notes[mode] = strf("%s: %d threads x %d lock/unlock pairs, first ticket 0x%x, preemption bound %d: %lld schedules, %s", LockName<L>::name, nthreads, pairs, first_ticket, bound, i, complete ? "space exhausted" : "CUT SHORT");
 	count(complete ? "dfs_spaces_exhausted" : "dfs_spaces_cut_short");
 }
 
@@ -234,8 +252,11 @@ static void spin_random(uint64_t n) {
 		if(!want_case(i)) continue;
 		Rng r(cs);
 		int nt = 2 + r.below(3), pairs = 1 + r.below(4);
-		if(r.chance(1, 2)) { sched::Pct s(cs, 1 + r.below(3), 40 * nt * pairs); run_spin_scenario<L>(mode.c_str(), i, nt, pairs, s, 200000, true); }
-		else { sched::RandomWalk s(cs, 1, 2 + r.below(4)); run_spin_scenario<L>(mode.c_str(), i, nt, pairs, s, 200000, true); }
+		// half of the ticket-lock runs start a few tickets below the 2^32 (or the signed 2^31) wrap-around, so the run crosses it
+		uint32_t first = 0;
+		if(LockName<L>::ticket && r.chance(1, 2)) { first = (r.chance(1, 4) ? 0x80000000u : 0u) - 1 - (uint32_t)r.below(nt * pairs); count("spin_schedules_across_ticket_wrap"); }
+		if(r.chance(1, 2)) { sched::Pct s(cs, 1 + r.below(3), 40 * nt * pairs); run_spin_scenario<L>(mode.c_str(), i, nt, pairs, s, 200000, true, first); }
+		else { sched::RandomWalk s(cs, 1, 2 + r.below(4)); run_spin_scenario<L>(mode.c_str(), i, nt, pairs, s, 200000, true, first); }
 	}
 }
 
@@ -250,6 +271,8 @@ int main(int argc, char **argv) {
 	guard_helpers();
 	spin_dfs<frg::ticket_spinlock>("2x2", 2, 2, t ? 4 : 3, t ? 400000 : 60000);
 	spin_dfs<frg::ticket_spinlock>("3x1", 3, 1, 2, t ? 400000 : 60000);
+	spin_dfs<frg::ticket_spinlock>("2x2@wrap", 2, 2, t ? 4 : 3, t ? 400000 : 60000, 0xFFFFFFFEu); // tickets 0xFFFFFFFE, 0xFFFFFFFF, 0, 1
+	spin_dfs<frg::ticket_spinlock>("3x1@wrap", 3, 1, 2, t ? 400000 : 60000, 0xFFFFFFFFu);
 	spin_dfs<frg::simple_spinlock>("2x2", 2, 2, t ? 4 : 3, t ? 400000 : 60000);
 	spin_dfs<frg::simple_spinlock>("3x1", 3, 1, 2, t ? 400000 : 60000);
 	spin_random<frg::ticket_spinlock>(scaled(300, 10000));
